@@ -300,6 +300,23 @@ def main(argv=None):
                     undecided.append('%s#%s: loop contract no longer matches the code (obligation refuted), but the bounded stand-in %s '
                                      'decides the clauses without it and passes' % (hn, r['name'], ', '.join(fb)))
     violations = [(h, r) for h, r in violations if h.name not in demoted]
+    # A proof harness that cannot INTERPRET the current shape of the code (engine: unsupported construct) while nothing it could
+    # check is refuted, and whose bounded stand-ins decide the same clauses and pass: the function is out of the verifier's reach
+    # in this shape, the bounded check stands in (labelled, never counted as proved) - reported as DEGRADED, not as undecided.
+    degraded = []
+    for o in outs:
+        h = byname[o['name']]
+        if not h.fallback or h.kind != 'proof' or not o['errors'] or o.get('crash'):
+            continue
+        if not all(e.startswith('unsupported:') for e in o['errors']) or h.name in by_h:
+            continue
+        fb = [n for n in byname if re.search(h.fallback, n)]
+        if fb and all(n in clean for n in fb):
+            pref = '%s: unsupported:' % h.name
+            mine = [u for u in undecided if u.startswith(pref)]
+            undecided[:] = [u for u in undecided if not u.startswith(pref)]
+            degraded.append('%s: out of reach in this shape of the code (%s); decided instead by the bounded stand-in %s, which passes (not counted as proved)'
+                            % (h.name, (mine[0][len(pref):].strip() if mine else '')[:160], ', '.join(sorted(fb))[:200]))
     extras = {}
     if a.tier == 'thorough' and not a.only:
         extras = thorough_extras(a.prop, seed, crashes)
@@ -320,6 +337,10 @@ def main(argv=None):
         status = 2
     for l in lines:
         print(l)
+    for dg in degraded:
+        print('DEGRADED:', dg[:700])
+    if degraded:
+        extras = dict(extras, degraded_to_bounded=degraded)
     for c in crashes:
         print('CHECKER-ERROR:', c[:1500])
     for u in undecided[:40]:
